@@ -485,5 +485,9 @@ def run(chk, prog):
                   % (fq["qname"].replace("vfps::", ""), "" if not (stat or gl) else " (static: %s, globals: %s)" % (stat, gl)),
                   "%s:state-between-calls:%s" % (fq["qname"].replace("vfps::", ""), sorted(stat + gl)))
     chk.floor("R6-model-functions", n6, 8)
+    # ---- RD: dimensional consistency of the quantities this property depends on (sa/dims.py) ----------------------------------------
+    from . import dimrules
+    nrd = dimrules.run(chk, prog, "RD")
+    chk.floor("RD-requirements", nrd or 0, 3)
     chk.notes.append("C16: sample counts and zero upper half by a symbolic model of the vector operations, passivity and side by a sign lattice over "
                      "real/imaginary parts, homogeneity exponents, factory pairing. NOT decided: asymptotic limits of the parallel-plates model.")
